@@ -203,6 +203,30 @@ var c08Pool = func() []poolEntry {
 		pool = append(pool, poolEntry{src: s, data: func() map[string]interface{} { return c08Shared }})
 		c08SharedSrc[s] = true
 	}
+	// names with characters that may continue a name but not begin one (combining marks, non-ASCII digits,
+	// joiners), at the beginning and inside: what one text scans to does not depend on the texts before it
+	for _, s := range []string{"prix_entre\u0301e * 2", "\u0301x + 1", "a\u0663 + 1", "\u0663a + 1", "\u00e9t\u00e9 + 1", "x\u200c + 1", "\u200cx + 1", "\u4e2d\u6587 + 1", "a\u0300\u0301 + \u00e9", "\u0300", "\u0663", "_\u0663 + $\u0301",
+		"\u09e6x", "x\u09e6 + 1", "\u0903a", "a\u0903 + 1", "\uff11x", "x\uff11 + 1", "\u203fx", "x\u203f + 1"} {
+		pool = append(pool, poolEntry{src: s, data: c08With("prix_entre\u0301e", 3.0, "a\u0663", 1.0, "\u00e9t\u00e9", 2.0, "x\u200c", 4.0, "\u4e2d\u6587", 5.0, "a\u0300\u0301", 6.0, "\u00e9", 7.0, "_\u0663", 8.0, "x\u09e6", 9.0, "a\u0903", 10.0, "x\uff11", 11.0, "x\u203f", 12.0)})
+	}
+	// one name, several functions: what a call does depends on the function the name holds now, not on
+	// what was called under that name before (same number of parameters, different shapes)
+	for _, s := range []string{"$pick = abs, $pick(0-7)", "$pick = max, $pick(1, 2, 3)", "$pick = min, $pick(4)", "$pick = left, $pick('abcdef', 2)", "$pick = right, $pick('abcdef', 2)", "$pick = len, $pick('abc')", "$pick = toString, $pick(1.50)", "$pick = join, $pick(['a', 'b'], '-')",
+		"$pick = find, $pick('abc', 'c')", "$pick = round, $pick(2.5)", "$pick = vf, $pick(1, [2, 3]...)", "$pick = cf, $pick(a)"} {
+		pool = append(pool, poolEntry{src: s, data: c08Data})
+	}
+	for _, call := range []string{"g1(7)", "g1()", "g1(7, 8)", "g1([7, 8]...)"} {
+		for _, fn := range []interface{}{func(x interface{}) (string, error) { return fmt.Sprint("one:", x), nil }, func(xs ...interface{}) (string, error) { return fmt.Sprint("variadic:", len(xs)), nil },
+			func(ctx context.Context) (string, error) { return fmt.Sprint("ctx:", ctx != nil), nil }, func(x float64) (float64, error) { return x + 1, nil }, func(xs []interface{}) (int, error) { return len(xs), nil }} {
+			pool = append(pool, poolEntry{src: call, data: c08With("g1", fn)})
+		}
+	}
+	for _, call := range []string{"h2(1, 2)", "h2(1)", "h2(1, 2, 3)"} {
+		for _, fn := range []interface{}{func(a, b interface{}) (string, error) { return fmt.Sprint("two:", a, b), nil }, func(ctx context.Context, a interface{}) (string, error) { return fmt.Sprint("ctx+one:", a), nil },
+			func(a interface{}, rest ...interface{}) (string, error) { return fmt.Sprint("one+variadic:", a, len(rest)), nil }, func(ctx context.Context, rest ...interface{}) (string, error) { return fmt.Sprint("ctx+variadic:", len(rest)), nil }} {
+			pool = append(pool, poolEntry{src: call, data: c08With("h2", fn)})
+		}
+	}
 	pool = append(pool, poolEntry{src: "u.name + '|' + u.Name + '|' + u.NAME + '|' + u.nAmE", data: c08With("u", map[string]interface{}{"Name": "alice", "NAME": "bob", "nom": "x"})})
 	for _, s := range []string{"$v = 1, $v", "[$v, $q, $m, $k]", "$nv ?? 'unset'", "$v = a + 1, $v * 2", "$m = 2, $k = 3, [$m, $k]", "this", "[a, s, n]"} {
 		pool = append(pool, poolEntry{src: s, data: c08Data, noData: true})
